@@ -11,7 +11,6 @@ implementation within tolerance (correspondence)."""
 from __future__ import annotations
 
 import math
-from fractions import Fraction
 
 import numpy as np
 
@@ -541,9 +540,6 @@ def _score_keys(name):
     return [M.METHODS[name]["score"]]
 
 
-REV = {"ratio_score": True, "refpoint_score": False, "fmf_score": True}
-
-
 def _electre_decided(case, p1, p2, amp):
     """(decided?, reason) — no concordance/discordance value within the margin of a threshold, no fragile weight-sum comparison"""
     spec = case["spec"]
@@ -678,7 +674,7 @@ def judge(case, obs, replies):
                     break
         return ok
 
-    def compare_order(pb, idx, which, key, r1, rb, rel_scale=1.0):
+    def compare_order(pb, idx, which, key, r1, rb):
         """pairwise relation of the ranks on pairs separated by more than the margin in P1"""
         sc = scales[key] * amp
         margin = C.F(2e-9 * sc)
